@@ -140,6 +140,7 @@ def bar_rules(ctx: Ctx, explain: bool = False) -> None:
                   construct="padding happens before the capacity rejection", message="", file=fi.file, node=c)
 
     signature_rewrite(ctx, fi)
+    duration_measure(ctx)
 
     from .c16 import own2
     from ..engines import ownership
@@ -296,6 +297,50 @@ def signature_rewrite(ctx: Ctx, fi) -> None:
                   inst + " rejection tests precede the rewrite", function=FN, construct="signature rejection tests run after the rewrite",
                   message="after the rewrite there is always exactly one matching signature: the tests could never fail", file=fi.file,
                   node=filters[0][0])
+
+
+def duration_measure(ctx: Ctx) -> None:
+    """MEASURE: the duration the capacity tests read -- `get_sequence_duration_relation` -- is the sum of all WAIT times (and
+    of nothing else), from 0, divided by PPQN (quarters); the Sequence wrapper passes it through unchanged."""
+    from ..engines.typecase import TypeCase, events_matching
+    from .c05 import message_loop
+    p = ctx.p
+    q = "RelativeSequence.get_sequence_duration_relation"
+    fi = p.func(q)
+    ctx.analysed(fi)
+    lp = message_loop(fi.node)
+    acc = None
+    if lp is not None:
+        for n in ast.walk(lp):
+            if isinstance(n, ast.AugAssign) and isinstance(n.op, ast.Add) and isinstance(n.target, ast.Name) and isinstance(n.value, ast.Attribute) \
+                    and n.value.attr == "time":
+                acc = n.target.id
+    if lp is None or acc is None:
+        ctx.undetermined("MEASURE", f"{q}: measuring loop", "no `x += msg.time` loop over the messages: idiom not judged")
+        return
+    for T in p.enum_order("MessageType"):
+        tc = TypeCase(p, fi, {lp.target.id}, T)
+        exits = tc.run_body(lp.body)
+        rng = events_matching(exits, lambda e: e[0] == "aug" and e[1] == acc, kinds=("end", "continue", "break"))
+        kinds_ = {k for k, _ in exits}
+        want = (1, 1) if T == "WAIT" else (0, 0)
+        ctx.check((rng == want or (rng is None and want == (0, 0))) and "break" not in kinds_, "MEASURE", f"{q}: {T} contributes {rng} to the duration", function=q,
+                  construct=f"sequence duration counts {T} messages wrongly", message=f"{rng}, expected {want}; exits {sorted(kinds_)}", file=fi.file, node=lp)
+    init = [s_ for s_ in fi.node.body if isinstance(s_, ast.Assign) and any(isinstance(t, ast.Name) and t.id == acc for t in s_.targets)]
+    ctx.check(len(init) == 1 and isinstance(init[0].value, ast.Constant) and init[0].value.value == 0 and not isinstance(init[0].value.value, bool), "MEASURE",
+              f"{q}: the sum starts at 0", function=q, construct="sequence duration does not start at 0", message="", file=fi.file, node=fi.node)
+    rets = [r for r in walk_local(fi.node) if isinstance(r, ast.Return)]
+    nz = Normaliser()
+    okr = len(rets) == 1 and rets[0].value is not None and nz.norm(rets[0].value) == Sym.atom(acc) * Sym.atom("PPQN").inverse()
+    ctx.check(okr, "MEASURE", f"{q}: returns the tick sum divided by PPQN", function=q, construct="sequence duration in quarters is not (sum of waits) / PPQN",
+              message=f"{[short(r) for r in rets]}", file=fi.file, node=rets[0] if rets else fi.node)
+    w = p.func("Sequence.get_sequence_duration_relation")
+    ctx.analysed(w)
+    wr = [r for r in walk_local(w.node) if isinstance(r, ast.Return)]
+    okw = len(wr) == 1 and isinstance(wr[0].value, ast.Call) and call_method(wr[0].value)[1] == "get_sequence_duration_relation" \
+        and attr_chain(call_method(wr[0].value)[0]) == ["self", "rel"] and not wr[0].value.args
+    ctx.check(okw, "MEASURE", "Sequence.get_sequence_duration_relation returns the relative view's value unchanged", function=w.qualname,
+              construct="Sequence-level duration (in quarters) is not the relative view's", message=f"{[short(r) for r in wr]}", file=w.file, node=w.node)
 
 
 def bar_copy(ctx: Ctx) -> None:
